@@ -321,6 +321,23 @@ THEOREMS = {
             "JP.C17.parse_print", "JP.C17.roundtrip", "JP.C17.marshal_wfc", "JP.C17.escape_switch_only_spelling",
             "JP.C17.parse_print_marshal", "JP.C17.print_marshal_utf8",
         ],
+        "JP.Props.C17stream": [
+            "JP.C17.token_stream_wellformed", "JP.C17.token_stream_value", "JP.C17.decode_stream_spec",
+            "JP.C17.decode_stream_values", "JP.C17.anyResult_ok", "JP.C17.decode_error_not_sticky",
+            "JP.C17.syntax_error_sticky", "JP.C17.unexpected_eof_sticky", "JP.C17.sticky_never_cleared",
+            "JP.C17.syntax_sticky_every_call_false", "JP.C17.more_iff", "JP.C17.encode_stream",
+            "JP.C17.encode_stream_indent_parses", "JP.C17.encode_stream_any", "JP.C17.encode_stream_error",
+            "JP.C17.read_value_wellformed", "JP.C17.decode_stream_cases", "JP.C17.stream_never_panics",
+        ],
+        "JP.Props.C17typed": [
+            "JP.C17.typed_wellformed", "JP.C17.typed_wellformed_tree", "JP.C17.typeFields_nodup", "JP.C17.typed_struct_fields",
+            "JP.C17.typed_struct_fields_plain", "JP.C17.typed_omitempty", "JP.C17.typed_omitempty_bytes", "JP.C17.typed_nil_embedded",
+            "JP.C17.typed_map_sorted", "JP.C17.typed_nil_null", "JP.C17.typed_nil_null_elem", "JP.C17.typed_agrees_with_untyped",
+            "JP.C17.hasType_typesWf", "JP.C17.typed_escape_irrelevant_counterexample", "JP.C17.typed_escape_irrelevant_partial",
+            "JP.C17.typed_escape_same_outcome", "JP.C17.typed_escape_irrelevant_unquoted", "JP.C17.typed_total",
+            "JP.C17.typed_error_is_number", "JP.C17.typed_fuel_irrelevant", "JP.C17.typeFields_fuel_irrelevant",
+            "JP.C17.typeFields_paths_valid",
+        ],
     },
     "C20": {
         "JP.Props.C20": [
@@ -379,7 +396,9 @@ OPEN = {
     "C10": ["data-race freedom under the Go memory model: executed schedules only (race detector)"],
     "C15": ["tests_transparent holds outside the known-finding trigger class and for duplicate-free names (C15.counterexample_dup shows duplicates break it: outside every property's domain)"],
     "C16": [],
-    "C17": ["struct tags, float formatting, Decoder/Encoder streams and Go types outside the library's target shapes: differential testing against encoding/json only",
+    "C17": ["float formatting, foreign MarshalJSON/MarshalText methods, recursive types, the DECODER on struct targets: differential testing against encoding/json only (the ENCODER on typed values — structs, tags, embedding, maps, slices, pointers — is modelled: JP/Codec/Typed.lean, stream `typed`, JP.Props.C17typed)",
+            "typed_escape_irrelevantGoal (equal values under both EscapeHTML settings) is refuted for `,string` fields of kind string (JP.C17.typed_escape_irrelevant_counterexample: the standard library's own behaviour); proved up to the relation escRel",
+            "Decoder/Encoder streams are modelled (JP/Codec/Stream.lean) for the decoder model's target types and the encoder model's value shapes; refill's chunking is abstracted (checked by differential runs through five chunkings), messages/offsets of stream-level errors are not modelled; Encode with a NON-EMPTY prefix: the bytes are the modelled Indent (compared differentially), parse-back is proved for the empty prefix only; `syntaxStickyEveryCallGoal` is false in the real code and in encoding/json (Token/More ignore dec.err): proved for every later Decode",
             "the unchecked entry points (UnmarshalValid*) on ILL-FORMED texts: model validated by testing only (the library never calls them behind a failed Valid gate)"],
     "C19": ["CreateMergePatch is modelled for plain-integer numbers only (float64 formatting is not modelled): the `createModelled` domain marker"],
     "C20": ["go-flags, OS, process exit: observed only"],
